@@ -317,6 +317,18 @@ class Observer:
                     if outs == {"accept"} and outs2 == {"accept"}:
                         self._v("message-blame", dict(base, what="blamed parameter satisfies its annotation under the bindings in force",
                                                       blamed=blamed, in_force=obs_ax))
+        if (stage == "parameters" and blamed is not None and scn.get("extra") == "tree" and path not in self.faulted
+                and not scn.get("misuse")):
+            names = [n for n, a in f["params"]]
+            if "xe" in names and blamed in names and names.index(blamed) > names.index("xe"):
+                # history: the PyTree parameter before the blamed one was accepted, so its structure name T is bound and must be
+                # among the listed values -- whatever the live state says (a failed check may not take bindings away)
+                if not any(x.startswith("T=") for x in got_pt + got_ax):
+                    self._v("message-bindings", dict(base, what="the structure name bound by an accepted earlier parameter is missing from "
+                                                                "the listed values", blamed=blamed, message_lists=[got_ax, got_pt]),
+                            kind="history-missing")
+                else:
+                    self.stats.inc("message_lists_structure_of_earlier_parameter")
         if stage == "return" and blamed is not None:
             self._v("message-blame", dict(base, what="return-stage message blames a parameter", blamed=blamed))
         sw = bool(jaxtyping.config.jaxtyping_remove_typechecker_stack)
